@@ -821,6 +821,56 @@ pub enum InfoInput {
     Bytes(Vec<u8>),
     /// a library file with one 32-bit word overwritten
     Mutated(crate::scenario::ValidCase, u16, u32),
+    /// a well-formed MP4 that the library itself would not write: the boxes of a library file re-arranged and re-headed
+    /// (see `foreign_bytes`): per top-level box of the result (index into the library file's boxes or an extra box,
+    /// header style 0 = 32-bit size, 1 = 64-bit largesize, 2 = size 0 "to the end of the file" when it is the last box)
+    Foreign(crate::scenario::ValidCase, Vec<(u8, u8)>),
+}
+
+/// Top-level boxes of the library file `lib` re-ordered, interleaved with free / skip / wide / uuid / mdat filler boxes and
+/// written with 32-bit, 64-bit or (last box only) to-end-of-file size fields: still a well-formed ISO-BMFF file, as other
+/// writers produce them (ISO/IEC 14496-12 4.2).
+fn foreign_bytes(lib: &[u8], plan: &[(u8, u8)]) -> Option<Vec<u8>> {
+    let tops = top_level(lib).ok()?;
+    if tops.is_empty() {
+        return None;
+    }
+    let extras: [(&[u8; 4], usize); 6] = [(b"free", 0), (b"skip", 5), (b"wide", 0), (b"uuid", 16), (b"mdat", 33), (b"free", 300)];
+    let mut out = Vec::new();
+    // ftyp stays first
+    out.extend_from_slice(&lib[tops[0].start..tops[0].end]);
+    let n = plan.len();
+    for (k, (which, style)) in plan.iter().enumerate() {
+        let w = *which as usize % (tops.len() + extras.len());
+        let (typ, payload): ([u8; 4], Vec<u8>) = if w < tops.len() {
+            let t = &tops[w];
+            if w == 0 {
+                continue;
+            }
+            (t.typ, lib[t.start + t.hdr..t.end].to_vec())
+        } else {
+            let (t, len) = extras[w - tops.len()];
+            (*t, (0..len).map(|i| (i * 7 + k) as u8).collect())
+        };
+        let last = k + 1 == n;
+        match style % 3 {
+            1 => {
+                out.extend_from_slice(&1u32.to_be_bytes());
+                out.extend_from_slice(&typ);
+                out.extend_from_slice(&(16 + payload.len() as u64).to_be_bytes());
+            }
+            2 if last => {
+                out.extend_from_slice(&0u32.to_be_bytes());
+                out.extend_from_slice(&typ);
+            }
+            _ => {
+                out.extend_from_slice(&(8 + payload.len() as u32).to_be_bytes());
+                out.extend_from_slice(&typ);
+            }
+        }
+        out.extend_from_slice(&payload);
+    }
+    Some(out)
 }
 
 pub fn eval_info(c: &InfoInput) -> Outcome {
@@ -837,6 +887,21 @@ pub fn eval_info(c: &InfoInput) -> Outcome {
             (r.out, true)
         }
         InfoInput::Bytes(b) => (b.clone(), false),
+        InfoInput::Foreign(vc, plan) => {
+            let l = crate::scenario::lower(vc);
+            let r = run_history(&l.cfg, &l.ops);
+            if r.panic.is_some() || r.finished_at.is_none() {
+                let _ = std::fs::remove_dir_all(&dir);
+                return o;
+            }
+            match foreign_bytes(&r.out, plan) {
+                Some(b) => (b, true),
+                None => {
+                    let _ = std::fs::remove_dir_all(&dir);
+                    return o;
+                }
+            }
+        }
         InfoInput::Mutated(vc, at, word) => {
             let l = crate::scenario::lower(vc);
             let r = run_history(&l.cfg, &l.ops);
@@ -878,7 +943,21 @@ pub fn eval_info(c: &InfoInput) -> Outcome {
                     v["boxes"].as_array().map(|a| a.iter().map(|b| (b["type"].as_str().unwrap_or("").to_string(), b["size"].as_u64().unwrap_or(0), b["offset"].as_u64().unwrap_or(0))).collect())
                 });
                 if p.code != Some(0) || got.as_ref() != Some(&want) {
-                    o.fail("info_boxes", "info_boxes", format!("info lists {:?} (exit {:?}) but the top-level boxes are {:?}", got, p.code, want));
+                    let kind = match c {
+                        InfoInput::Foreign(..) => {
+                            // which feature of the file the listing stumbles over (for the signature): the first box that
+                            // is not listed as it is
+                            let n_ok = got.as_ref().map(|g| g.iter().zip(want.iter()).take_while(|(a, b)| a == b).count()).unwrap_or(0);
+                            let nodes = top_level(&bytes).unwrap_or_default();
+                            match nodes.get(n_ok) {
+                                Some(nd) if nd.hdr == 16 => ":largesize_box",
+                                Some(nd) if bytes[nd.start..nd.start + 4] == [0, 0, 0, 0] => ":box_to_end_of_file",
+                                _ => ":foreign_layout",
+                            }
+                        }
+                        _ => "",
+                    };
+                    o.fail("info_boxes", format!("info_boxes{}", kind), format!("info lists {:?} (exit {:?}) but the top-level boxes are {:?}", got, p.code, want));
                 }
             }
         }
@@ -888,6 +967,7 @@ pub fn eval_info(c: &InfoInput) -> Outcome {
         InfoInput::Library(_) => "library_file",
         InfoInput::Bytes(_) => "arbitrary_bytes",
         InfoInput::Mutated(..) => "mutated_library_file",
+        InfoInput::Foreign(..) => "well_formed_file_of_another_writer",
     });
     let _ = std::fs::remove_dir_all(&dir);
     o
@@ -904,6 +984,7 @@ fn s_info(_: Tier) -> BoxedStrategy<InfoInput> {
             InfoInput::Bytes(v)
         }),
         3 => (valid_case_strategy(3, 3), any::<u16>(), prop_oneof![0u32..9, any::<u32>(), Just(u32::MAX)]).prop_map(|(c, a, w)| InfoInput::Mutated(c, a, w)),
+        3 => (valid_case_strategy(3, 3), proptest::collection::vec((0u8..12, 0u8..3), 1..7)).prop_map(|(c, plan)| InfoInput::Foreign(c, plan)),
     ]
     .boxed()
 }
